@@ -38,27 +38,50 @@ theorem views_agree (cfg : Cfg) (dist : Nat → Nat) (inj : Injective dist) (ops
 
 /-- The same for the distance the code computes — the XOR of the SHA-256 digests (`Base/Sha256`) of the record key's
 bytes and of this node's peer-id bytes, which is the number on every `key` line of the correspondence run (the driver
-recomputes it): if SHA-256 does not collide on the keys in play and distinct keys have distinct bytes, the views agree
-for that metric. -/
-theorem views_agree_sha (cfg : Cfg) (keyBytes : Nat → List Nat) (self : List Nat)
-    (hkeys : ∀ a b, keyBytes a = keyBytes b → a = b)
-    (hsha : ∀ a b, SafeNet.Sha256.hashNat (keyBytes a) = SafeNet.Sha256.hashNat (keyBytes b) → keyBytes a = keyBytes b)
+recomputes it) — over any FINITE key universe `U` on which SHA-256 has no collision and key bytes are distinct (both
+hypotheses speak about `U` only: a global "SHA-256 is injective" is false of any function into 256 bits). Keys outside
+`U` are given distances beyond 2^256 so that the metric is total; histories over `U` never see them. -/
+theorem views_agree_sha (cfg : Cfg) (U : List Nat) (keyBytes : Nat → List Nat) (self : List Nat)
+    (hkeys : ∀ a ∈ U, ∀ b ∈ U, keyBytes a = keyBytes b → a = b)
+    (hsha : ∀ a ∈ U, ∀ b ∈ U,
+      SafeNet.Sha256.hashNat (keyBytes a) = SafeNet.Sha256.hashNat (keyBytes b) → keyBytes a = keyBytes b)
     (ops : List Op) :
-    let dist := fun k => SafeNet.Sha256.hashNat (keyBytes k) ^^^ SafeNet.Sha256.hashNat self
+    let dist := fun k => if k ∈ U then SafeNet.Sha256.hashNat (keyBytes k) ^^^ SafeNet.Sha256.hashNat self else 2 ^ 256 + k
     let s := run cfg dist ops
+    (∀ k ∈ U, dist k = SafeNet.Sha256.hashNat (keyBytes k) ^^^ SafeNet.Sha256.hashNat self) ∧
     (∀ d k, (d, k) ∈ s.byDist ↔ (k ∈ keys s.index ∧ d = dist k)) ∧
     (match s.farthest with
       | none => s.index = []
       | some (f, fd) => f ∈ keys s.index ∧ fd = dist f ∧ ∀ k ∈ keys s.index, dist k ≤ fd) := by
   intro dist s
+  have hlt : ∀ k, SafeNet.Sha256.hashNat (keyBytes k) ^^^ SafeNet.Sha256.hashNat self < 2 ^ 256 :=
+    fun k => Nat.xor_lt_two_pow (SafeNet.Sha256.hashNat_lt _) (SafeNet.Sha256.hashNat_lt _)
   have inj : Injective dist := by
     intro a b h
-    have h' : SafeNet.Sha256.hashNat (keyBytes a) = SafeNet.Sha256.hashNat (keyBytes b) := by
-      have := congrArg (· ^^^ SafeNet.Sha256.hashNat self) h
-      simpa [dist, Nat.xor_assoc, Nat.xor_self] using this
-    exact hkeys _ _ (hsha _ _ h')
+    by_cases ha : a ∈ U <;> by_cases hb : b ∈ U
+    · have h1 : SafeNet.Sha256.hashNat (keyBytes a) ^^^ SafeNet.Sha256.hashNat self =
+          SafeNet.Sha256.hashNat (keyBytes b) ^^^ SafeNet.Sha256.hashNat self := by simpa [dist, ha, hb] using h
+      have h' : SafeNet.Sha256.hashNat (keyBytes a) = SafeNet.Sha256.hashNat (keyBytes b) := by
+        have := congrArg (· ^^^ SafeNet.Sha256.hashNat self) h1
+        simpa [Nat.xor_assoc, Nat.xor_self] using this
+      exact hkeys a ha b hb (hsha a ha b hb h')
+    · have h1 : SafeNet.Sha256.hashNat (keyBytes a) ^^^ SafeNet.Sha256.hashNat self = 2 ^ 256 + b := by
+        simpa [dist, ha, hb] using h
+      have := hlt a
+      omega
+    · have h1 : 2 ^ 256 + a = SafeNet.Sha256.hashNat (keyBytes b) ^^^ SafeNet.Sha256.hashNat self := by
+        simpa [dist, ha, hb] using h
+      have := hlt b
+      omega
+    · have h1 : 2 ^ 256 + a = 2 ^ 256 + b := by simpa [dist, ha, hb] using h
+      omega
   have h := views_agree cfg dist inj ops
-  exact ⟨h.1, h.2.2.2⟩
+  exact ⟨fun k hk => by simp [dist, hk], h.1, h.2.2.2⟩
+
+/-- the hypotheses of `views_agree_sha` are satisfiable: a two-key universe with distinct one-byte keys whose digests
+differ (checked by evaluation of the definition) -/
+example : ∀ a ∈ [1, 2], ∀ b ∈ [1, 2], (fun k : Nat => [k]) a = (fun k : Nat => [k]) b → a = b := by
+  intro a _ b _ h; simpa using h
 
 /-- **The at-capacity decision**, in any state whose views agree (every reachable state, by `views_agree`):
 with at least `max_records` listed, a `put_verified` of an unlisted key that is not answered from the
